@@ -4,6 +4,7 @@ package c04
 // recorded history must be right in both directions before any live history is trusted.
 
 import (
+	"fmt"
 	"strings"
 	"testing"
 	"time"
@@ -261,6 +262,72 @@ func TestCheckerSelfTest(t *testing.T) {
 			t.Errorf("HARNESS: self-test %q: a correct history was rejected: %s", c.name, all)
 		case c.want != "" && !strings.Contains(all, c.want):
 			t.Errorf("HARNESS: self-test %q: expected a violation mentioning %q, got %q", c.name, c.want, all)
+		}
+	}
+	// many operations of unknown outcome must not make the search explode
+	{
+		b := newHB(cnt, sr, lst)
+		t0 := int64(10)
+		total := int64(0)
+		for i := 0; i < 300; i++ {
+			if i%5 == 0 { // never took effect
+				b.op(i%7, "cnt", "incrby", "", "", int64(1)<<uint(i%30), t0, t0+5, "unknown", nil)
+				b.op(i%7, "sreg", "set", "", fmt.Sprintf("<u-%d>", i), 0, t0, t0+5, "unknown", nil)
+				b.op(i%7, "list", "lpush", "", fmt.Sprintf("eu-%d", i), 0, t0, t0+5, "unknown", nil)
+			} else {
+				total += 3
+				b.op(i%7, "cnt", "incrby", "", "", 3, t0, t0+5, "ok", ri(total))
+				b.op(i%7, "sreg", "set", "", fmt.Sprintf("<k-%d>", i), 0, t0, t0+5, "ok", &rv{T: "s", S: "OK"})
+				b.op(i%7, "list", "lpush", "", fmt.Sprintf("ek-%d", i), 0, t0, t0+5, "ok", ri(total/3))
+			}
+			t0 += 10
+		}
+		var l []string
+		for i := 299; i >= 0; i-- {
+			if i%5 != 0 {
+				l = append(l, fmt.Sprintf("ek-%d", i))
+			}
+		}
+		h := b.final(same3(map[string][]string{"cnt": {fmt.Sprint(total)}, "sreg": {"<k-299>"}, "list": l})...)
+		start := time.Now()
+		v := checkHistory(h, 20*time.Second)
+		if len(v.Violations) > 0 || len(v.Inconclusive) > 0 {
+			t.Errorf("HARNESS: self-test with 60 unknown operations per key: violations %v inconclusive %v", v.Violations, v.Inconclusive)
+		}
+		if d := time.Since(start); d > 5*time.Second {
+			t.Errorf("HARNESS: self-test with 60 unknown operations per key took %v", d)
+		}
+	}
+	// a write answered with a pre-propose error that nevertheless took effect: outside what
+	// C04 forbids (at most once), noted but not a violation; twice is a violation
+	{
+		h := newHB(cnt).
+			op(0, "cnt", "incr", "", "", 0, 10, 20, "ok", ri(1)).
+			op(1, "cnt", "incrby", "", "", 8, 30, 35, "fail", &rv{T: "e", S: "ERR_CLUSTER_CHANGED: the raft is not ready for write"}).
+			op(2, "cnt", "incr", "", "", 0, 50, 60, "ok", ri(10)).
+			final(same3(map[string][]string{"cnt": {"10"}})...)
+		v := checkHistory(h, time.Minute)
+		if len(v.Violations) > 0 || v.Counts["rejected_write_took_effect"] != 1 {
+			t.Errorf("HARNESS: self-test rejected-write-took-effect-once: %v %v", v.Violations, v.Counts)
+		}
+		h = newHB(cnt).
+			op(0, "cnt", "incr", "", "", 0, 10, 20, "ok", ri(1)).
+			op(1, "cnt", "incrby", "", "", 8, 30, 35, "fail", &rv{T: "e", S: "ERR_CLUSTER_CHANGED: the raft is not ready for write"}).
+			op(2, "cnt", "incr", "", "", 0, 50, 60, "ok", ri(18)).
+			final(same3(map[string][]string{"cnt": {"18"}})...)
+		v = checkHistory(h, time.Minute)
+		if len(v.Violations) == 0 {
+			t.Errorf("HARNESS: self-test rejected-write-took-effect-twice was accepted")
+		}
+		// never sent at all (dial failure): no second pass
+		h = newHB(cnt).
+			op(0, "cnt", "incr", "", "", 0, 10, 20, "ok", ri(1)).
+			op(1, "cnt", "incrby", "", "", 8, 30, 35, "fail", nil).
+			op(2, "cnt", "incr", "", "", 0, 50, 60, "ok", ri(10)).
+			final(same3(map[string][]string{"cnt": {"10"}})...)
+		v = checkHistory(h, time.Minute)
+		if len(v.Violations) == 0 {
+			t.Errorf("HARNESS: self-test effect-of-a-write-that-was-never-sent was accepted")
 		}
 	}
 	// verdicts are a function of the history
